@@ -217,6 +217,10 @@ class Gen:
                 p = list(body.values())[0]["param"]
                 p["port"] = r.choice([8080, 8081])
                 p["namespace_id"] = r.choice(["ns1", "", "t1"])
+                # persistent instances are replicated with the health / weight / enabled state they had
+                p["healthy"] = r.choice([True, True, False])
+                p["weight"] = r.choice([1.0, 2.0, 0.5])
+                p["enabled"] = r.choice([True, True, False])
             return q
         if v == "CacheReq":
             k = r.choice([x for x in s if x.startswith("CacheReq/") and "Limit" not in x])
